@@ -53,9 +53,13 @@ def call(op: str, a: dict) -> dict:
                 if a["sparse"]:
                     X = X.to_sptensor()
                 W = np.array(a["W"]["v"], dtype=float).reshape(tuple(a["W"]["shape"]), order="F") if a["hasW"] else None
+                import c05
+                snap = (c05.snapshot(K), c05.snapshot(X), None if W is None else W.copy())
                 F, G = fg.evaluate(K, X, W, f, g)
                 F2 = fg.evaluate(K, X, W, f, None)
                 G2 = fg.evaluate(K, X, W, None, g)
+                if c05.snapshot(K) != snap[0] or c05.snapshot(X) != snap[1] or (W is not None and not np.array_equal(W, snap[2])):
+                    return {"st": "model-data-or-weights-changed-by-the-evaluation"}
                 if F2 != F or not all(np.array_equal(p, q) for p, q in zip(G, G2)):
                     return {"st": "separate-and-joint-evaluation-differ"}
                 return {"st": "ok", "F": bind.num(F), "G": [bind.matrix(m) for m in G]}
